@@ -99,7 +99,18 @@ def main():
         if not c.lens:
             continue
         if c.error:
+            # no model of this wiring: exit 2 for the model - the action count of the REAL runs is still a verdict
             machinery.append("%s: %s" % (c.key(), c.error))
+            for lv in c.lens:
+                real = c.real.get((lv[0],))
+                if real is None or real.get("deadlock") or real.get("crash"):
+                    continue
+                acts = actions_of(real)
+                n, w = lv[0], c.w
+                if n >= w and len(acts) != n:
+                    V.violation({"pipe": c.pipe, "symptom": "count", "delta": len(acts) - n, "len": "long"},
+                                "%s n=%d: emits %d actions for %d snapshots" % (c.key(), n, len(acts), n),
+                                {"pipe": c.pipe, "cfg": c.cfg, "cap": c.cap, "n": n, "warmup": w, "model": None})
             continue
         cov.add_tlc(c.tlc)
         cov.instances += 1
